@@ -1,39 +1,24 @@
-"""C36 - SSH channels respect flow control and flush before closing."""
+"""Structural layer of C36 (CFG dominance by normalised window inequalities, coupled-update path rules, exact guard sets) on the
+normalised view of SSHChannel / SSHConnection.  Rule names carry the prefix "s/".  A rule group that cannot read the shape
+abstains with a note (the clause is then covered by the bounded layer in c36.py)."""
 from __future__ import annotations
 
 import ast
 import struct
 
 from sa.astx import call_attr, call_name, const_eval, dotted, src, statements
-from sa.selftest import Mutant, Silent
 from sa.source import methods
-from sa.props._lib_h import (assigned_pairs, call_nodes, calls_at, canon, const_is, csrc, def_nodes, edge_path, guarded_by_edges,
+from sa.props._lib_h import (Normaliser, abstain, assigned_pairs, call_nodes, calls_at, canon, const_is, csrc, def_nodes, edge_path, guarded_by_edges,
                               is_attr, is_empty_const, lin, lincmp_c, local_aliases, need, pure_expr, reaching_defs, self_attr, stmts,
-                              struct_fmt_norm, succ_on, tests, truth_edges)
+                              struct_fmt_norm, succ_on, tests, truth_edges, truthiness)
+from sa.props._lib_h_s35 import SCtx
 
-PROPERTY = "C36"
 CH = "conch/ssh/channel.py"
 CO = "conch/ssh/connection.py"
 QC = "twisted.conch.ssh.channel.SSHChannel."
 QN = "twisted.conch.ssh.connection.SSHConnection."
-TECHNIQUE = "CFG dominance by normalised window inequalities + coupled-update path rules"
-EXPLANATION = (
-    "Sender (SSHChannel.write / writeExtended): every conn.sendData / sendExtendedData site is dominated by 'buffer empty', by the window "
-    "clamp (normalised inequality len <= remoteWindowLeft, or the truncation that establishes it) and by the packet-size bound "
-    "(slice width / guard == remoteMaxPacket); the overflow split is complete (data[:W] sent, data[W:] buffered, same W); remoteWindowLeft is "
-    "decremented exactly once per send by exactly the amount sent; while a buffer is non-empty new data is appended at its tail only; "
-    "addWindowBytes credits the window before it re-writes, swaps each buffer out before re-writing it and iterates it in order; "
-    "sendClose is reachable only from loseConnection under 'both buffers empty' with `closing` recorded first, and every draining function "
-    "re-checks `closing` on every path to its exit. Receiver (SSHConnection): data is refused iff length > localWindowLeft or > localMaxPacket "
-    "(exact boundary), the window is decremented once by the received length before delivery, replenished by localWindowSize - "
-    "localWindowLeft, adjustWindow adds locally exactly what it advertises, and the guard set of the replenish path is exact (only `localClosed` "
-    "may suppress the WINDOW_ADJUST, only the low-water test may skip the top-up call); every send* packs the *remote* channel id and is "
-    "suppressed after close. Not decided: liveness with windows too small to ever trigger replenishing, interleaving of the two streams."
-)
-ASSUMPTIONS = [
-    "stopWriting/startWriting are hints that do not write to the channel re-entrantly",
-    "conn.sendData/sendExtendedData send exactly the bytes they are given (checked: NS(data) of the parameter)",
-]
+SENDER = "sender/ (bounded)"
+RECEIVER = "receiver/ (bounded)"
 
 WIN = "self.remoteWindowLeft"
 RMP = "self.remoteMaxPacket"
@@ -87,23 +72,56 @@ def _slice_parts(e):
     return None
 
 
+def _resolve(g, e, use, at_definition=False):
+    """(value, node where it is evaluated) of ``e`` as read at CFG node ``use``: a local with a single definition whose
+    operands are not re-bound between that definition and the use stands for its defining expression.  With
+    ``at_definition`` the caller reasons about the value at the node returned (where the expression is evaluated), so
+    later re-bindings of its operands do not matter."""
+    for _ in range(3):
+        if not isinstance(e, ast.Name):
+            break
+        ds = def_nodes(g, e.id)
+        if len(ds) != 1:
+            break
+        d = ds[0]
+        vals = [v for t, v in assigned_pairs(g.node(d).ast) if isinstance(t, ast.Name) and t.id == e.id] if isinstance(g.node(d).ast, ast.Assign) else []
+        if len(vals) != 1 or vals[0] is None or any(isinstance(x, ast.Call) and dotted(x.func) != "len" for x in ast.walk(vals[0])):
+            break
+        if edge_path(g, [d], [use], strict=True) is None:
+            break
+        stale = False
+        for x in ast.walk(vals[0]):
+            if isinstance(x, ast.Name):
+                for k in def_nodes(g, x.id):
+                    if k not in (d, use) and edge_path(g, [d], [k], strict=True) is not None and edge_path(g, [k], [use], avoid_nodes=[d], strict=True) is not None:
+                        stale = True
+        if stale and not at_definition:
+            break
+        e, use = vals[0], d
+    return e, use
+
+
 def _check_split(ctx, g, al, q, dparam, buf_attr, overflow_starts, sinks, what):
     """On the overflow branch the data must be split completely at the window: data = data[:W]; buffer gets data[W:]."""
     trunc, rest = [], []
+    rest_eval = {}
     for n in stmts(g, lambda st: isinstance(st, ast.Assign)):
         st = g.node(n).ast
         for t, v in assigned_pairs(st):
             if v is None:
                 continue
             if isinstance(t, ast.Name) and t.id == dparam:
-                sp = _slice_parts(v)
+                v1, _at = _resolve(g, v, n)
+                sp = _slice_parts(v1)
                 if sp and isinstance(sp[0], ast.Name) and sp[0].id == dparam and sp[1] is None and sp[2] is not None:
                     trunc.append((n, sp[2]))
             if is_attr(t, "self", buf_attr):
                 for x in ast.walk(v):
-                    sp = _slice_parts(x)
+                    x1, at = _resolve(g, x, n, at_definition=True) if isinstance(x, ast.Name) else (x, n)
+                    sp = _slice_parts(x1)
                     if sp and isinstance(sp[0], ast.Name) and sp[0].id == dparam and sp[2] is None and sp[1] is not None:
                         rest.append((n, sp[1]))
+                        rest_eval[n] = at
     tn = [n for n, _ in trunc if csrc(_, al) == WIN]
     rn = [n for n, _ in rest if csrc(_, al) == WIN]
     for n, b in trunc:
@@ -122,7 +140,7 @@ def _check_split(ctx, g, al, q, dparam, buf_attr, overflow_starts, sinks, what):
     for a in tn:
         for b in rn:
             if a != b:
-                w = edge_path(g, [a], [b], strict=True)
+                w = edge_path(g, [a], [rest_eval.get(b, b)], strict=True)
                 ctx.check(w is None, "split/complete", ctx.construct(q, g.node(b).ast) + " | order",
                           f"{what}: the rest is sliced after the data was truncated, so it is always empty", witness=g.describe(w))
     return tn
@@ -145,10 +163,13 @@ def _closing_recheck(ctx, g, q, after_nodes, buf_attrs):
                   "`closing` is set and the buffer is empty, yet loseConnection() is not retried", witness=g.describe(w))
 
 
-def check(ctx):
+def structural(ctx0):
+    ctx = SCtx(ctx0)
+    VCH = Normaliser(ctx.mod(CH), ["SSHChannel"], set(), presplit=True).view
+    VCO = Normaliser(ctx.mod(CO), ["SSHConnection"], set(), subscripts=False, presplit=True).view
     _ok_w = False; _ok_wl = False; _ok_x = False; _ok_aw = False; _ok_cn = False; _ok_sm = False; loop = bound = None
-    with ctx.section('write/anchors'):
-        f = ctx.func(CH, "SSHChannel.write")
+    with abstain(ctx0, 's/write/anchors', SENDER):
+        f = VCH(ctx.func(CH, "SSHChannel.write"))
         g = ctx.cfg(f)
         q = QC + "write"
         al = _aliases(f)
@@ -161,7 +182,7 @@ def check(ctx):
         empty_edges = truth_edges(g, lambda e: self_attr(e, "buf"), False)
         full_edges = truth_edges(g, lambda e: self_attr(e, "buf"), True)
         _ok_w = True
-    with ctx.section('write/order'):
+    with abstain(ctx0, 's/write/order', SENDER):
         ctx.need(_ok_w, 'anchors of write (section skipped)')
         for s in sends:
             ctx.check(bool(empty_edges) and guarded_by_edges(g, s, empty_edges), "order/send-only-if-buffer-empty", ctx.construct(q, g.node(s).ast),
@@ -182,7 +203,7 @@ def check(ctx):
                       "while data is buffered, new data is not appended at the tail of the buffer (lost or reordered)", witness=g.describe(w))
         ctx.check(bool(full_edges), "order/append-at-tail-while-buffered", q, "write() never tests whether older data is still buffered")
 
-    with ctx.section('write/send-loop'):
+    with abstain(ctx0, 's/write/send-loop', SENDER):
         ctx.need(_ok_w, 'anchors of write (section skipped)')
         loops = [n for n in g.ids(lambda n: n.kind == "for") if any(edge_path(g, [n], [s], strict=True) for s in sends)]
         ctx.need(loops, "write: for-loop around sendData")
@@ -199,8 +220,9 @@ def check(ctx):
                   f"pieces advance by {src(step)}, not by the peer's maximum packet size")
         for s in sends:
             for c in calls_at(g, s, lambda c: is_send(c, "sendData")):
-                arg = c.args[1] if len(c.args) == 2 else None
+                arg = _resolve(g, c.args[1], s)[0] if len(c.args) == 2 else None
                 sp = _slice_parts(arg) if arg is not None else None
+                need(ctx, sp is not None or (isinstance(arg, ast.Name) and arg.id == dparam), f"write: piece expression {src(arg) if arg is not None else '?'}")
                 okshape = sp is not None and isinstance(sp[0], ast.Name) and sp[0].id == dparam and sp[1] is not None and sp[2] is not None \
                     and src(sp[1]) == lv.id
                 ctx.check(okshape and src(c.args[0]) == "self", "packet-size/piece-width", ctx.construct(q, c) + " | shape",
@@ -210,7 +232,7 @@ def check(ctx):
                     ctx.check(width == (frozenset({(RMP, 1)}), 0), "packet-size/piece-width", ctx.construct(q, c),
                               f"a piece can be {csrc(sp[2], al)} - {csrc(sp[1], al)} bytes long; the peer accepts at most remoteMaxPacket")
         _ok_wl = True
-    with ctx.section('write/clamp-and-split'):
+    with abstain(ctx0, 's/write/clamp-and-split', SENDER):
         ctx.need(_ok_wl, 'anchors of write (section skipped)')
         if isinstance(bound, ast.Name):
             B = bound.id
@@ -230,7 +252,7 @@ def check(ctx):
             tn = _check_split(ctx, g, al, q, dparam, "buf", overflow, [loop], "write()")
         else:
             need(ctx, False, f"write: loop bound {src(bound)} is not a local")
-    with ctx.section('write/decrement'):
+    with abstain(ctx0, 's/write/decrement', SENDER):
         ctx.need(_ok_wl, 'anchors of write (section skipped)')
         decs = _win_decrements(g, al)
         dn = [n for n, a in decs]
@@ -246,12 +268,12 @@ def check(ctx):
         w = edge_path(g, succ_on(g, loop, "done"), [g.exit], avoid_nodes=dn)
         ctx.check(bool(dn) and w is None, "window/decrement-once", q, "data is sent without reducing remoteWindowLeft: later writes exceed the peer's window",
                   witness=g.describe(w))
-    with ctx.section('write/close-recheck'):
+    with abstain(ctx0, 's/write/close-recheck', SENDER):
         ctx.need(_ok_wl, 'anchors of write (section skipped)')
         _closing_recheck(ctx, g, q, succ_on(g, loop, "done"), ["buf"])
 
-    with ctx.section('writeExtended/anchors'):
-        f = ctx.func(CH, "SSHChannel.writeExtended")
+    with abstain(ctx0, 's/writeExtended/anchors', SENDER):
+        f = VCH(ctx.func(CH, "SSHChannel.writeExtended"))
         g = ctx.cfg(f)
         q = QC + "writeExtended"
         al = _aliases(f)
@@ -261,7 +283,7 @@ def check(ctx):
         empty_edges = truth_edges(g, lambda e: self_attr(e, "extBuf"), False)
         full_edges = truth_edges(g, lambda e: self_attr(e, "extBuf"), True)
         _ok_x = True
-    with ctx.section('writeExtended/order'):
+    with abstain(ctx0, 's/writeExtended/order', SENDER):
         ctx.need(_ok_x, 'anchors of writeExtended (section skipped)')
         for s in sends:
             ctx.check(bool(empty_edges) and guarded_by_edges(g, s, empty_edges), "order/send-only-if-buffer-empty", ctx.construct(q, g.node(s).ast),
@@ -298,7 +320,7 @@ def check(ctx):
             ctx.check(guarded_by_edges(g, m, same_type), "order/merge-same-type-only", ctx.construct(q, g.node(m).ast),
                       "data is merged into a buffered entry of a different extended-data type")
 
-    with ctx.section('writeExtended/clamp-and-split'):
+    with abstain(ctx0, 's/writeExtended/clamp-and-split', SENDER):
         ctx.need(_ok_x, 'anchors of writeExtended (section skipped)')
         est_edges = _cmp_edges(g, al, {WIN: 1, f"len({dparam})": -1}, 0, at_least=True)
         overflow = [d for t, lab in est_edges for d in succ_on(g, t, _other(lab))]
@@ -306,13 +328,14 @@ def check(ctx):
         # the rest must be buffered under the same type
         for n in stmts(g, lambda st: isinstance(st, ast.Assign) and any(self_attr(t, "extBuf") for t, v in assigned_pairs(st))):
             for t, v in assigned_pairs(g.node(n).ast):
-                if self_attr(t, "extBuf") and v is not None and any(_slice_parts(x) for x in ast.walk(v)):
+                if self_attr(t, "extBuf") and v is not None and any(_slice_parts(_resolve(g, x, n, at_definition=True)[0] if isinstance(x, ast.Name) else x) for x in ast.walk(v)):
                     okv = isinstance(v, ast.List) and len(v.elts) == 1 and isinstance(v.elts[0], (ast.List, ast.Tuple)) and len(v.elts[0].elts) == 2 \
                         and src(v.elts[0].elts[0]) == tparam
                     ctx.check(okv, "split/complete", ctx.construct(q, g.node(n).ast) + " | type kept", "the buffered rest loses its extended-data type")
         def shrink_or_trunc(st):
             for t, v in assigned_pairs(st) if isinstance(st, ast.Assign) else []:
                 if isinstance(t, ast.Name) and t.id == dparam:
+                    v = _resolve(g, v, g.ids_of(st)[0])[0] if v is not None and g.ids_of(st) else v
                     sp = _slice_parts(v) if v is not None else None
                     if not (sp and isinstance(sp[0], ast.Name) and sp[0].id == dparam):
                         return False
@@ -322,7 +345,7 @@ def check(ctx):
             w = edge_path(g, [g.entry] + kills, [s], avoid_nodes=tn, avoid_edges=est_edges)
             ctx.check(w is None, "window/clamp", ctx.construct(q, g.node(s).ast),
                       "extended data can be sent without having been bounded by remoteWindowLeft", witness=g.describe(w))
-    with ctx.section('writeExtended/pieces-and-decrement'):
+    with abstain(ctx0, 's/writeExtended/pieces-and-decrement', SENDER):
         ctx.need(_ok_x, 'anchors of writeExtended (section skipped)')
         decs = _win_decrements(g, al)
         dn = [n for n, a in decs]
@@ -333,7 +356,7 @@ def check(ctx):
             ctx.check(okargs, "packet-size/piece-width", ctx.construct(q, c) + " | shape", "sendExtendedData is not called with (self, dataType, piece)")
             if not okargs:
                 continue
-            piece = c.args[2]
+            piece = _resolve(g, c.args[2], s)[0]
             sp = _slice_parts(piece)
             expect = None
             if sp and isinstance(sp[0], ast.Name) and sp[0].id == dparam and sp[1] is None and sp[2] is not None:
@@ -355,8 +378,7 @@ def check(ctx):
                           "the remaining data is sent in one message without knowing that it fits the peer's maximum packet size")
                 expect = f"len({dparam})"
             else:
-                ctx.check(False, "packet-size/piece-width", ctx.construct(q, c), f"unrecognised piece expression {src(piece)}")
-                continue
+                need(ctx, False, f"writeExtended: piece expression {src(piece)}")
             follow = [n for n, a in decs if a is not None and csrc(a, al) == expect]
             w = edge_path(g, [s], sends + [g.exit], avoid_nodes=follow, strict=True)
             ctx.check(bool(follow) and w is None, "window/decrement-matches-sent", ctx.construct(q, c),
@@ -373,12 +395,12 @@ def check(ctx):
                       "the window is reduced on a path that sends nothing", witness=g.describe(w))
             w = edge_path(g, [n], dn, avoid_nodes=sends, strict=True)
             ctx.check(w is None, "window/decrement-once", ctx.construct(q, g.node(n).ast), "the window is reduced twice for one send", witness=g.describe(w))
-    with ctx.section('writeExtended/close-recheck'):
+    with abstain(ctx0, 's/writeExtended/close-recheck', SENDER):
         ctx.need(_ok_x, 'anchors of writeExtended (section skipped)')
         _closing_recheck(ctx, g, q, sends + [d for t, lab in empty_edges for d in succ_on(g, t, lab)], ["extBuf"])
 
-    with ctx.section('addWindowBytes/credit'):
-        f = ctx.func(CH, "SSHChannel.addWindowBytes")
+    with abstain(ctx0, 's/addWindowBytes/credit', SENDER):
+        f = VCH(ctx.func(CH, "SSHChannel.addWindowBytes"))
         g = ctx.cfg(f)
         q = QC + "addWindowBytes"
         al = _aliases(f)
@@ -401,7 +423,7 @@ def check(ctx):
                       "buffered data is re-written before the new window is credited: it is buffered again and stays there until the next adjust",
                       witness=g.describe(w))
         _ok_aw = True
-    with ctx.section('addWindowBytes/flush'):
+    with abstain(ctx0, 's/addWindowBytes/flush', SENDER):
         ctx.need(_ok_aw, 'anchors of addWindowBytes (section skipped)')
         for meth, attr in (("write", "buf"), ("writeExtended", "extBuf")):
             calls = call_nodes(g, lambda c: call_name(c) == f"self.{meth}")
@@ -430,8 +452,26 @@ def check(ctx):
                         start = fors[0]
                         tg = [src(e) for e in fr.target.elts] if isinstance(fr.target, (ast.Tuple, ast.List)) else []
                         ctx.check(tg == [src(a) for a in c.args], "flush/in-order", cc, "buffered (type, data) pairs are re-written with swapped or different fields")
+                        # while entries are still held in the local, nothing called from the loop may send the CLOSE: loseConnection only
+                        # looks at self.buf / self.extBuf, which were emptied by the swap
+                        cm_ = methods(ctx.cls(CH, "SSHChannel"))
+                        seen, todo = set(), [meth]
+                        while todo:
+                            x = todo.pop()
+                            if x in seen or x not in cm_:
+                                continue
+                            seen.add(x)
+                            todo += [call_name(k)[5:] for k in ast.walk(cm_[x]) if isinstance(k, ast.Call) and (call_name(k) or "").startswith("self.") and (call_name(k) or "").count(".") == 1]
+                        closers = sorted(x for x in seen if any(isinstance(k, ast.Call) and call_attr(k) == "sendClose" for k in ast.walk(cm_[x])))
+                        masked = stmts(g, lambda st: isinstance(st, ast.Assign) and any(self_attr(t, "closing") for t, v in assigned_pairs(st)))
+                        ctx.check(not closers or bool(masked), "close/waits-for-swapped-out-entries", q + " | <re-write loop over the swapped-out entries>",
+                                  f"self.{attr} is swapped out into a local and re-written entry by entry; {meth}() re-checks `closing` after each entry and reaches "
+                                  f"{', '.join(closers)}() -> sendClose, whose guard sees only self.buf / self.{attr} (both empty during the loop): with a close pending, "
+                                  "CLOSE is sent after the first entry and the remaining entries are never delivered")
                     elif fors:
-                        ctx.check(False, "flush/in-order", cc, f"the buffered entries are iterated as {src(g.node(fors[0]).ast.iter)}, not in their queue order")
+                        it_ = g.node(fors[0]).ast.iter
+                        need(ctx, isinstance(it_, ast.Call) and dotted(it_.func) in ("reversed", "sorted", "set"), f"addWindowBytes: loop over {src(it_)}")
+                        ctx.check(False, "flush/in-order", cc, f"the buffered entries are iterated as {src(it_)}, not in their queue order")
                         continue
                 if holder is None:
                     ctx.check(False, "flush/swap-before-rewrite", cc,
@@ -449,8 +489,8 @@ def check(ctx):
                     w = edge_path(g, resets, [d], strict=True)
                     ctx.check(w is None, "flush/swap-before-rewrite", cc + " | order", f"self.{attr} is emptied before its content is taken", witness=g.describe(w))
 
-    with ctx.section('loseConnection'):
-        f = ctx.func(CH, "SSHChannel.loseConnection")
+    with abstain(ctx0, 's/loseConnection', SENDER):
+        f = VCH(ctx.func(CH, "SSHChannel.loseConnection"))
         g = ctx.cfg(f)
         q = QC + "loseConnection"
         closes = call_nodes(g, lambda c: call_name(c) == "self.conn.sendClose")
@@ -475,31 +515,32 @@ def check(ctx):
                     ctx.check(name == "loseConnection", "close/sent-from-loseConnection", ctx.construct(QC + name, c),
                               "CLOSE is sent from a place that does not check the buffers")
         ctx.floor("close/sent-from-loseConnection", n_close, 1)
-    with ctx.section('closing-writers'):
+    with abstain(ctx0, 's/closing-writers', SENDER):
         cls = ctx.cls(CH, "SSHChannel")
         for name, fn in methods(cls).items():
             for st in statements(fn):
                 if isinstance(st, (ast.Assign, ast.AugAssign)) and any(self_attr(t, "closing") for t in (st.targets if isinstance(st, ast.Assign) else [st.target])):
                     ctx.check(name in ("__init__", "loseConnection"), "close/recorded", ctx.construct(QC + name, st) + " | writer", "`closing` written outside loseConnection")
 
-    with ctx.section('writeSequence'):
-        f = ctx.func(CH, "SSHChannel.writeSequence")
+    with abstain(ctx0, 's/writeSequence', SENDER):
+        f = VCH(ctx.func(CH, "SSHChannel.writeSequence"))
         sp = f.args.args[1].arg
         cs = [c for c in ast.walk(f) if isinstance(c, ast.Call) and call_name(c) == "self.write"]
         ok = len(cs) == 1 and len(cs[0].args) == 1 and isinstance(cs[0].args[0], ast.Call) and call_attr(cs[0].args[0]) == "join" \
             and is_empty_const(cs[0].args[0].func.value) and [src(a) for a in cs[0].args[0].args] == [sp]
         loopok = any(isinstance(n, ast.For) and src(n.iter) == sp and any(isinstance(c, ast.Call) and call_name(c) == "self.write" and [src(a) for a in c.args] == [src(n.target)]
                                                                           for c in ast.walk(n)) for n in ast.walk(f))
+        need(ctx, ok or loopok or not cs, "writeSequence: self.write(b''.join(data)) or a loop of self.write(piece)")
         ctx.check(ok or loopok, "writeSequence/through-write", QC + "writeSequence", "writeSequence does not pass exactly the concatenation of its pieces through write() (flow control bypassed)")
 
-    with ctx.section('connection/receivers'):
+    with abstain(ctx0, 's/connection/receivers', RECEIVER):
         consts = {}
         cmod = ctx.mod(CO)
         for st in cmod.tree.body:
             if isinstance(st, ast.Assign) and len(st.targets) == 1 and isinstance(st.targets[0], ast.Name) and isinstance(st.value, ast.Constant):
                 consts[st.targets[0].id] = st.value.value
         def _receiver(hname, cb):
-            f = ctx.func(CO, f"SSHConnection.{hname}")
+            f = VCO(ctx.func(CO, f"SSHConnection.{hname}"))
             g = ctx.cfg(f)
             q = QN + hname
             al = local_aliases(f, allow=pure_expr)     # named temporaries such as `window = channel.localWindowLeft`
@@ -584,24 +625,29 @@ def check(ctx):
             off = struct.calcsize(fmt) - 4
             ctx.check(sp is not None and src(sp[0]) == pk and sp[2] is None and sp[1] is not None and src(sp[1]) == str(off), "receive/payload-offset", ctx.construct(q, gn[0]),
                       f"the data string is read from offset {src(sp[1]) if sp and sp[1] is not None else '?'}; its length prefix ({DL}) is at offset {off}")
-            dv = [src(t) for t in gn[0].targets]
+            gv = gn[0].value
+            if isinstance(gv, ast.Subscript) and gv.value is inner and src(gv.slice) == "0":
+                dv = [src(t) for t in gn[0].targets]
+            elif gv is inner and len(gn[0].targets) == 1 and isinstance(gn[0].targets[0], (ast.Tuple, ast.List)) and gn[0].targets[0].elts:
+                dv = [src(gn[0].targets[0].elts[0])]
+            else:
+                need(ctx, False, f"{hname}: data = getNS(...)[0] or data, rest = getNS(...)")
             for d in deliv:
                 c = calls_at(g, d, lambda c: call_name(c) == f"{ch}.{cb}")[0]
                 ctx.check(src(c.args[-1]) in dv, "receive/payload-offset", ctx.construct(q, c), "what is delivered is not the decoded data string")
 
         for hname, cb in (("ssh_CHANNEL_DATA", "dataReceived"), ("ssh_CHANNEL_EXTENDED_DATA", "extReceived")):
-            with ctx.section(f"receiver/{hname}"):
+            with abstain(ctx0, f's/receiver/{hname}', RECEIVER):
                 _receiver(hname, cb)
         _ok_cn = True
-    with ctx.section('adjustWindow'):
-        f = ctx.func(CO, "SSHConnection.adjustWindow")
+    with abstain(ctx0, 's/adjustWindow', RECEIVER):
+        f = VCO(ctx.func(CO, "SSHConnection.adjustWindow"))
         g = ctx.cfg(f)
         q = QN + "adjustWindow"
         chp, np_ = f.args.args[1].arg, f.args.args[2].arg
         sp = call_nodes(g, lambda c: call_name(c) == "self.transport.sendPacket")
         ctx.need(sp, "adjustWindow: sendPacket")
         # exact guard set: the only condition that may suppress the WINDOW_ADJUST is "we already sent CLOSE" (localClosed)
-        from sa.props._lib_h import truthiness
         n_guard = 0
         for t in g.ids(lambda n: n.kind == "test"):
             others = [x for x in g.ids(lambda n: n.kind == "test") if x != t]      # blame the test that decides, not the ones before it
@@ -640,7 +686,7 @@ def check(ctx):
         ctx.check(len(packs) == 1 and len(packs[0].args) == 3 and src(packs[0].args[2]) == np_ and struct_fmt_norm(const_eval(packs[0].args[0], {})) == ("big", "LL"),
                   "adjust/local-equals-advertised", q + " | advertised amount", f"the amount put on the wire is not {np_} as a big-endian uint32")
 
-    with ctx.section('send-methods'):
+    with abstain(ctx0, 's/send-methods', SENDER):
         ctx.need(_ok_cn, 'anchors of send-methods (section skipped)')
         table = {"sendData": "MSG_CHANNEL_DATA", "sendExtendedData": "MSG_CHANNEL_EXTENDED_DATA", "sendEOF": "MSG_CHANNEL_EOF", "sendClose": "MSG_CHANNEL_CLOSE",
                  "adjustWindow": "MSG_CHANNEL_WINDOW_ADJUST", "sendRequest": "MSG_CHANNEL_REQUEST"}
@@ -648,7 +694,7 @@ def check(ctx):
         cm = methods(ccls)
         vals = {}
         def _send_method(m, msg):
-            f = ctx.func(CO, f"SSHConnection.{m}")
+            f = VCO(ctx.func(CO, f"SSHConnection.{m}"))
             g = ctx.cfg(f)
             q = QN + m
             chp = f.args.args[1].arg
@@ -661,27 +707,29 @@ def check(ctx):
                           f"{m} can put a message on a channel whose CLOSE was already sent")
                 ctx.check(src(c.args[0]) == msg, "send/message-type", ctx.construct(q, c), f"{m} sends {src(c.args[0])}, expected {msg}")
             packs = [c for c in ast.walk(f) if isinstance(c, ast.Call) and call_name(c) in ("struct.pack", "pack")]
-            ctx.check(len(packs) == 1 and len(packs[0].args) >= 2 and src(packs[0].args[1]) == f"self.channelsToRemoteChannel[{chp}]", "send/remote-channel-id", q,
+            ctx.need(len(packs) == 1 and len(packs[0].args) >= 2, f"{m}: one struct.pack(fmt, id, ...)")
+            ral = local_aliases(f, allow=lambda v: pure_expr(v) or isinstance(v, ast.Subscript))
+            ctx.check(csrc(packs[0].args[1], ral) == f"self.channelsToRemoteChannel[{chp}]", "send/remote-channel-id", q,
                       f"{m} does not address the message with the peer's id of the channel (self.channelsToRemoteChannel[{chp}])")
             h = "ssh_" + msg[4:]
             ctx.check(h in cm, "send/message-type", q + f" | {h}", f"no handler {h} for {msg}")
             vals[msg] = consts.get(msg)
         for m, msg in table.items():
-            with ctx.section(f"send-methods/{m}"):
+            with abstain(ctx0, f's/send-methods/{m}', SENDER):
                 _send_method(m, msg)
         ctx.check(None not in vals.values() and len(set(vals.values())) == len(vals), "send/message-type", "twisted.conch.ssh.connection | MSG_CHANNEL_*",
                   f"channel message numbers are not pairwise distinct: {vals}")
         _ok_sm = True
-    with ctx.section('send-methods/whole-piece'):
+    with abstain(ctx0, 's/send-methods/whole-piece', SENDER):
         ctx.need(_ok_sm, 'anchors of send-methods (section skipped)')
         for m, idx in (("sendData", 2), ("sendExtendedData", 3)):
-            f = cm[m]
+            f = VCO(cm[m])
             dpar = f.args.args[idx].arg
             ns = [c for c in ast.walk(f) if isinstance(c, ast.Call) and call_attr(c) == "NS"]
             ctx.check(len(ns) == 1 and [src(a) for a in ns[0].args] == [dpar], "send/whole-piece", QN + m, f"{m} does not send NS({dpar}) (the complete piece it was given)")
-    with ctx.section('sendClose-marks-closed'):
+    with abstain(ctx0, 's/sendClose-marks-closed', SENDER):
         ctx.need(_ok_sm, 'anchors of sendClose-marks-closed (section skipped)')
-        f = cm["sendClose"]
+        f = VCO(cm["sendClose"])
         g = ctx.cfg(f)
         chp = f.args.args[1].arg
         sp = call_nodes(g, lambda c: call_name(c) == "self.transport.sendPacket")
@@ -689,8 +737,8 @@ def check(ctx):
         w = edge_path(g, sp, [g.exit], avoid_nodes=mark, strict=True)
         ctx.check(bool(mark) and w is None, "send/nothing-after-close", QN + "sendClose | marks closed", "CLOSE is sent but localClosed is not set: data can follow the close",
                   witness=g.describe(w))
-    with ctx.section('ssh_CHANNEL_WINDOW_ADJUST'):
-        f = ctx.func(CO, "SSHConnection.ssh_CHANNEL_WINDOW_ADJUST")
+    with abstain(ctx0, 's/ssh_CHANNEL_WINDOW_ADJUST', RECEIVER):
+        f = VCO(ctx.func(CO, "SSHConnection.ssh_CHANNEL_WINDOW_ADJUST"))
         up = [st for st in statements(f) if isinstance(st, ast.Assign) and isinstance(st.value, ast.Call) and call_name(st.value) == "struct.unpack"]
         ctx.need(up and isinstance(up[0].targets[0], ast.Tuple), "ssh_CHANNEL_WINDOW_ADJUST: unpack")
         nm = [src(e) for e in up[0].targets[0].elts]
@@ -699,53 +747,3 @@ def check(ctx):
                   "window/credit", QN + "ssh_CHANNEL_WINDOW_ADJUST", "the channel is not credited with the second uint32 of the WINDOW_ADJUST message")
 
 
-MUTANTS = [
-    Mutant("adjust-suppressed-after-remote-close", CO, "        if channel.localClosed:\n            return  # we're already closed\n        packet = struct.pack(\">2L\", self.channelsToRemoteChannel[channel], bytesToAdd)",
-           "        if channel.localClosed or channel.remoteClosed:\n            return  # we're already closed\n        packet = struct.pack(\">2L\", self.channelsToRemoteChannel[channel], bytesToAdd)",
-           expect_rule="adjust/only-closed-suppresses"),
-    Mutant("no-top-up-while-close-pending", CO, "        if channel.localWindowLeft < channel.localWindowSize // 2:\n            self.adjustWindow(\n                channel, channel.localWindowSize - channel.localWindowLeft\n            )\n        channel.dataReceived(data)",
-           "        if not channel.closing and channel.localWindowLeft < channel.localWindowSize // 2:\n            self.adjustWindow(\n                channel, channel.localWindowSize - channel.localWindowLeft\n            )\n        channel.dataReceived(data)",
-           expect_rule="receive/replenish-only-threshold-suppresses"),
-    Mutant("write-named-slice-end-too-long", CH, "        for offset in r:\n            write(self, data[offset : offset + rmp])\n", "        for offset in r:\n            end = offset + rmp + 1\n            write(self, data[offset:end])\n",
-           expect_rule="packet-size/piece-width"),
-    Mutant("receiver-named-limit-off-by-one", CO, "        if dataLength > channel.localWindowLeft or dataLength > channel.localMaxPacket:\n            self._log.error(\"too much extdata\")",
-           "        room = channel.localWindowLeft - 1\n        if dataLength > room or dataLength > channel.localMaxPacket:\n            self._log.error(\"too much extdata\")", expect_rule="receive/window-boundary"),
-    Mutant("send-before-truncating", CH, "            top = self.remoteWindowLeft\n        rmp = self.remoteMaxPacket", "        rmp = self.remoteMaxPacket", expect_rule="window/clamp"),
-    Mutant("close-with-nonempty-extbuf", CH, "        if not self.buf and not self.extBuf:\n            self.conn.sendClose(self)", "        if not self.buf:\n            self.conn.sendClose(self)",
-           expect_rule="close/only-when-flushed"),
-    Mutant("forget-decrement-last-piece", CH, "            self.conn.sendExtendedData(self, dataType, data)\n            self.remoteWindowLeft -= len(data)\n", "            self.conn.sendExtendedData(self, dataType, data)\n",
-           expect_rule="window/decrement-matches-sent"),
-    Mutant("rest-off-by-one", CH, "                data[: self.remoteWindowLeft],\n                data[self.remoteWindowLeft :],\n            )\n            self.areWriting = 0\n            self.stopWriting()\n            top",
-           "                data[: self.remoteWindowLeft],\n                data[self.remoteWindowLeft + 1 :],\n            )\n            self.areWriting = 0\n            self.stopWriting()\n            top", expect_rule="split/at-window"),
-    Mutant("piece-uses-local-max-packet", CH, "        rmp = self.remoteMaxPacket\n", "        rmp = self.localMaxPacket\n", expect_rule="packet-size/piece-width"),
-    Mutant("rewrite-without-swap", CH, "            b = self.buf\n            self.buf = b\"\"\n            self.write(b)\n", "            b = self.buf\n            self.write(b)\n", expect_rule="flush/swap-before-rewrite"),
-    Mutant("credit-after-rewrite", CH, "        self.remoteWindowLeft = self.remoteWindowLeft + data\n        if not self.areWriting and not self.closing:\n            self.areWriting = True\n            self.startWriting()\n        if self.buf:\n            b = self.buf\n            self.buf = b\"\"\n            self.write(b)\n",
-           "        if not self.areWriting and not self.closing:\n            self.areWriting = True\n            self.startWriting()\n        if self.buf:\n            b = self.buf\n            self.buf = b\"\"\n            self.write(b)\n        self.remoteWindowLeft = self.remoteWindowLeft + data\n",
-           expect_rule="window/credit-before-rewrite"),
-    Mutant("no-close-recheck-in-writeExtended", CH, "            self.remoteWindowLeft -= len(data)\n        if self.closing:\n            self.loseConnection()  # try again\n", "            self.remoteWindowLeft -= len(data)\n",
-           expect_rule="close/recheck-after-drain"),
-    Mutant("receiver-refuses-exact-window", CO, "            dataLength > channel.localWindowLeft or dataLength > channel.localMaxPacket\n        ):  # more data than we want",
-           "            dataLength >= channel.localWindowLeft or dataLength > channel.localMaxPacket\n        ):  # more data than we want", expect_rule="receive/window-boundary"),
-    Mutant("adjust-not-recorded-locally", CO, "        channel.localWindowLeft += bytesToAdd\n", "", expect_rule="adjust/local-equals-advertised"),
-    Mutant("ext-decrement-missing", CO, "        data = common.getNS(packet[8:])[0]\n        channel.localWindowLeft -= dataLength\n", "        data = common.getNS(packet[8:])[0]\n", expect_rule="receive/window-decrement"),
-    Mutant("data-addressed-with-local-id", CO, "            struct.pack(\">L\", self.channelsToRemoteChannel[channel]) + common.NS(data),", "            struct.pack(\">L\", channel.id) + common.NS(data),",
-           expect_rule="send/remote-channel-id"),
-    Mutant("buffered-data-sent-ahead", CH, "        if self.buf:\n            self.buf += data\n            return\n        top = len(data)", "        top = len(data)", expect_rule="order/send-only-if-buffer-empty"),
-    Mutant("ext-merge-into-first", CH, "            if self.extBuf[-1][0] == dataType:\n                self.extBuf[-1][1] += data", "            if self.extBuf[0][0] == dataType:\n                self.extBuf[0][1] += data",
-           expect_rule="order/append-at-tail-while-buffered"),
-]
-SILENT = [
-    Silent("adjust-guard-inverted", CO, "        if channel.localClosed:\n            return  # we're already closed\n        packet = struct.pack(\">2L\", self.channelsToRemoteChannel[channel], bytesToAdd)",
-           "        if not channel.localClosed:\n            pass\n        else:\n            return\n        packet = struct.pack(\">2L\", self.channelsToRemoteChannel[channel], bytesToAdd)"),
-    Silent("write-named-slice-end", CH, "        for offset in r:\n            write(self, data[offset : offset + rmp])\n", "        for offset in r:\n            end = offset + rmp\n            write(self, data[offset:end])\n"),
-    Silent("receiver-named-window", CO, "        if dataLength > channel.localWindowLeft or dataLength > channel.localMaxPacket:\n            self._log.error(\"too much extdata\")",
-           "        window = channel.localWindowLeft\n        if dataLength > window or dataLength > channel.localMaxPacket:\n            self._log.error(\"too much extdata\")"),
-    Silent("write-min-style", CH, "        if top > self.remoteWindowLeft:\n            data, self.buf = (", "        if not top <= self.remoteWindowLeft:\n            data, self.buf = ("),
-    Silent("writeExtended-augassign-and-rename", CH, "        while len(data) > self.remoteMaxPacket:\n            self.conn.sendExtendedData(self, dataType, data[: self.remoteMaxPacket])\n            data = data[self.remoteMaxPacket :]\n            self.remoteWindowLeft -= self.remoteMaxPacket\n",
-           "        limit = self.remoteMaxPacket\n        while limit < len(data):\n            self.conn.sendExtendedData(self, dataType, data[:limit])\n            self.remoteWindowLeft = self.remoteWindowLeft - limit\n            data = data[limit:]\n"),
-    Silent("receiver-early-returns", CO, "        if dataLength > channel.localWindowLeft or dataLength > channel.localMaxPacket:\n            self._log.error(\"too much extdata\")\n            self.sendClose(channel)\n            return\n",
-           "        if channel.localWindowLeft < dataLength:\n            self._log.error(\"too much extdata\")\n            self.sendClose(channel)\n            return\n        if not dataLength <= channel.localMaxPacket:\n            self._log.error(\"too much extdata\")\n            self.sendClose(channel)\n            return\n"),
-    Silent("overflow-branch-at-equality", CH, "        if top > self.remoteWindowLeft:\n            data, self.buf = (", "        if top >= self.remoteWindowLeft:\n            data, self.buf = ("),
-    Silent("decrement-by-len-of-truncated-data", CH, "        self.remoteWindowLeft -= top\n", "        self.remoteWindowLeft -= len(data)\n"),
-    Silent("addWindowBytes-augassign", CH, "        self.remoteWindowLeft = self.remoteWindowLeft + data\n", "        self.remoteWindowLeft += data\n"),
-]
